@@ -382,6 +382,37 @@ func C17(tier string) {
 			}
 		}
 	}
+	// long strings with astral characters at every alignment (a decoder working
+	// in blocks must not split a surrogate pair wherever the block boundary falls)
+	for k := 0; k <= 13; k++ {
+		for _, n := range []int{300, 700, 1100, 2600, 5200} {
+			txt := strings.Repeat("a", k) + textOfLen("surrogates", n)
+			tag, texts := gen.Mluc([]gen.MlucRecord{{Lang: "en", Country: "US", Text: txt}}, 12, gen.MlucTableOrder)
+			try("mluc/alignment", mlucProfile(tag), texts, fmt.Sprintf("mluc en record: %d ASCII characters then %d characters mixing astral and BMP", k, n))
+		}
+	}
+	// notable code points first, in the middle and last
+	for _, cp := range []rune{0xFEFF, 0xFFFE, 0xFFFF, 0xFFFD, 0x00A0, 0x00AD, 0x200B, 0x200E, 0x202E, 0x2028, 0x2029, 0x0301, 0x3000, 0xD7FF, 0xE000, 0xF8FF, 0x10000, 0x10FFFF, 0x1F600, 0x0001, 0x007F, 0x0080, 0x009F, 0x00FF, 0x0100, 0x0020, 0x0009, 0x000A, 0x000D} {
+		for _, where := range []string{"first", "middle", "last", "only", "twice"} {
+			var txt string
+			switch where {
+			case "first":
+				txt = string(cp) + "Wide Gamut"
+			case "middle":
+				txt = "Wide" + string(cp) + "Gamut"
+			case "last":
+				txt = "Wide Gamut" + string(cp)
+			case "only":
+				txt = string(cp)
+			default:
+				txt = string(cp) + string(cp) + "x"
+			}
+			for _, lang := range []string{"en", "fi"} {
+				tag, texts := gen.Mluc([]gen.MlucRecord{{Lang: lang, Country: "XX", Text: txt}}, 12, gen.MlucTableOrder)
+				try("mluc/code-point", mlucProfile(tag), texts, fmt.Sprintf("mluc %s record with U+%04X %s", lang, cp, where))
+			}
+		}
+	}
 	// empty strings
 	{
 		tag, texts := gen.Mluc([]gen.MlucRecord{{Lang: "en", Country: "US", Text: ""}}, 12, gen.MlucTableOrder)
